@@ -7,6 +7,7 @@ import SradModel.Drv.Reseq
 import SradModel.Drv.Codec
 import SradModel.Drv.Host
 import SradModel.Drv.Templ
+import SradModel.Drv.Admit
 
 open Srad Srad.Drv
 
@@ -24,6 +25,7 @@ def step (st : DState) (line : String) : DState × String :=
   | "host" :: rest =>
     let (h, o) := stepHost st.host rest
     ({ st with host := h }, o)
+  | "admit" :: rest => (st, stepAdmit rest)
   | "templ" :: rest =>
     let (r, o) := stepTempl st.templ rest
     ({ st with templ := r }, o)
